@@ -2,7 +2,7 @@
 
     M DEFINITIONS AUTOMATIC TAGS ::= BEGIN
       FRAME-CLS ::= CLASS { &id INTEGER UNIQUE, &Type } WITH SYNTAX { &Type IDENTIFIED BY &id }
-      Row1 ::= ...   Row2 ::= ...                       -- row types are NAMED types (F27)
+      Row1 ::= ...   Row2 ::= ...                       -- row types are NAMED types (plain built-in types work too since F27 was repaired)
       Frames FRAME-CLS ::= { { Row1 IDENTIFIED BY 1 } | { Row2 IDENTIFIED BY 7 } [, ...] }
       Frame ::= SEQUENCE { ident FRAME-CLS.&id ({Frames}), value FRAME-CLS.&Type ({Frames}{@ident}) [, ...] }
     END
@@ -21,7 +21,7 @@ SHAPES = {
     "singleton": ("F101", "a comma-separated item with a single object is dropped from the table"),
     "id_after":  ("F103", "identifier member declared after the open type: selector reads the zeroed field"),
     "dup_type":  ("F104", "two rows with the same &Type: asn1c exits 0, emitted C has duplicate enumerators"),
-    "builtin":   ("F27",  "built-in type directly in &Type: asn1c exits 0, emitted table does not compile"),
+    "builtin":   (None,   "built-in type directly in &Type (former finding F27, repaired: the table cell refers to the built-in type's descriptor)"),
     "one_row_type_first": ("F107", "one-row table with &Type declared before &id: asn1c FATAL 'Can not find referenced object class column' (operator precedence in the column search loop)"),
     "dup_id":    ("F106", "two objects with the same &id (UNIQUE violated) are accepted; first row wins"),
 }
